@@ -18,7 +18,10 @@ use proptest::strategy::{Strategy, ValueTree};
 use proptest::test_runner::{Config, RngAlgorithm, TestRng, TestRunner};
 use serde_json::{json, Value};
 
-pub const VERIF_DIR: &str = "/verif";
+/// Root of the verification tree: /verif, or the directory `./check` was started from (snapshot runs).
+pub fn verif_dir() -> String {
+    std::env::var("VP_ROOT").unwrap_or_else(|_| "/verif".to_string())
+}
 
 // ---------------------------------------------------------------------------------------
 // choice source
@@ -228,7 +231,7 @@ pub struct KnownFinding {
 }
 
 pub fn load_known_findings() -> Vec<KnownFinding> {
-    let path = format!("{VERIF_DIR}/known_findings.json");
+    let path = format!("{}/known_findings.json", verif_dir());
     let Ok(text) = std::fs::read_to_string(&path) else { return vec![] };
     let v: Value = serde_json::from_str(&text).expect("known_findings.json must be valid JSON");
     let mut out = vec![];
@@ -791,7 +794,7 @@ impl Report {
             if let Some(f) = &p.failure {
                 violations += 1;
                 let h = hash_words(&f.choices);
-                let dir = format!("{VERIF_DIR}/replays");
+                let dir = format!("{}/replays", verif_dir());
                 let _ = std::fs::create_dir_all(&dir);
                 let path = format!("{dir}/{}-{}-{:016x}.json", self.id, f.part, h);
                 let body = json!({
@@ -836,7 +839,7 @@ impl Report {
             "violations": violations,
             "replays": replay_paths,
         });
-        let dir = format!("{VERIF_DIR}/evidence");
+        let dir = format!("{}/evidence", verif_dir());
         let _ = std::fs::create_dir_all(&dir);
         std::fs::write(
             format!("{dir}/{}.json", self.id),
@@ -896,7 +899,7 @@ pub fn external_parts_json(id: &str, cfg: &RunCfg, parts: &[PartResult], engine:
         }
         if let Some(f) = &p.failure {
             let h = hash_words(&f.choices);
-            let dir = format!("{VERIF_DIR}/replays");
+            let dir = format!("{}/replays", verif_dir());
             let _ = std::fs::create_dir_all(&dir);
             let path = format!("{dir}/{}-{}-{:016x}.json", id, f.part, h);
             let body = json!({
@@ -977,7 +980,7 @@ pub fn supervise(args: &[String]) -> i32 {
                         .status()
                         .expect("spawn replay worker");
                     if !matches!(st.code(), Some(0 | 1 | 2)) {
-                        let out_dir = format!("{}/replays", VERIF_DIR);
+                        let out_dir = format!("{}/replays", verif_dir());
                         let _ = std::fs::create_dir_all(&out_dir);
                         let path = format!("{out_dir}/{id}-{part}-crash-{:016x}.json", hash_words(&choices));
                         std::fs::copy(&tmp, &path).unwrap();
